@@ -125,7 +125,9 @@ class InlineTranslator:
             transformed = transformed[len(elem.terms) :]
             new_terms = terms + list(replace_elem.terms[1:])
             new_terms.extend([Function(LOC, "unique", [], False)] * (max_arity - len(new_terms) + 1))
-            new_elements.append(elem.update(terms=new_terms, condition=transformed))
+            # the other literals of the replaced condition still have to hold
+            rest_cond = [cond for cond in replace_elem.condition if cond != replace_cond]
+            new_elements.append(elem.update(terms=new_terms, condition=transformed + rest_cond))
         return new_elements
 
     def inline_body_aggregate(self, rule: AST, atom: AST, unique_vars: UniqueVariables) -> AST:
